@@ -12,8 +12,24 @@ NOTES = {
     "C13": "Prompt return of rand_distr samplers (probabilistic termination) is an assumption; that only distributions of validated machines reach Dist::sample is by inspection; range and panic-freedom of maybenot's own code are proved.",
     "C20": "maybenot_on_events on an instance: BOUNDED (no machines, two batches of 0 or 1 event, all-zero generator value, Instant::now stubbed); count <= num_machines with machines and start/stop ownership rely on std semantics (zip, Box) - assumed.",
 }
+NOTES.update({
+    "C16": "PARTIAL and BOUNDED: per-action rules of do_scheduled_action / peek_blocked_exp on two timer slots per side; the trace-level clauses (one BlockingEnd, nothing leaves a blocked side) need the event loop and are not decided.",
+    "C17": "PARTIAL: trigger_update by Verus for any number of machines (std::time / queue / framework stand-ins, no overflow of Instant arithmetic assumed); firing and look-ahead by Kani BOUNDED to two slots per side; that pick_next advances to the earliest pending time is not decided.",
+    "C18": "PARTIAL: as C17, for the internal timer: the UpdateTimer rule, cancellation and TimerBegin by Verus; TimerEnd and look-ahead by Kani, BOUNDED; pick_next not decided.",
+})
 p = os.path.join(ROOT, "MANIFEST.json")
 m = json.load(open(p))
+have = {c["property_id"] for c in m["checks"]}
+for pid in sorted(PROPS):
+    if pid not in have:
+        m["checks"].append({
+            "property_id": pid, "quick_cmd": "./check %s quick" % pid, "thorough_cmd": "./check %s thorough" % pid,
+            "evidence_file": "/verif/evidence/%s.json" % pid, "replay_cmd_template": "./check %s --replay {path}" % pid,
+            "engine": "+".join(e for e in ("verus" if PROPS[pid].get("verus") else "", "kani" if PROPS[pid].get("kani") else "") if e),
+            "level_claimed": {"category": "proof", "text": "", "design_ref": "DESIGN.md sections 0, 4"},
+            "level_note": ""})
+m["checks"].sort(key=lambda c: c["property_id"])
+m["not_applicable"] = [x for x in m.get("not_applicable", []) if x["property_id"] not in PROPS]
 for c in m["checks"]:
     pid = c["property_id"]
     c["level_claimed"]["text"] = PROPS[pid]["explanation"]
